@@ -139,6 +139,9 @@ def _element_of(n: ast.Name):
                     src = src.args[0]
                 if isinstance(src, (ast.ListComp, ast.GeneratorExp)):
                     return src.elt
+                if isinstance(src, ast.Call) and call_name(src) in ("np.eye", "np.identity", "numpy.eye", "numpy.identity") and src.args:
+                    # the rows of an identity matrix are the unit orders: every one of them is a non-zero order
+                    return ast.BinOp(left=ast.Tuple(elts=[ast.Constant(value=1)], ctx=ast.Load()), op=ast.Mult(), right=src.args[0])
                 if isinstance(src, (ast.List, ast.Tuple)) and src.elts and len({norm(e) for e in src.elts}) == 1:
                     return src.elts[0]
                 return None
@@ -196,6 +199,8 @@ def segments(expr: ast.AST, index_name: str | None, depth=0) -> list[tuple]:
             if isinstance(a, ast.Tuple) and len(a.elts) == 1 and isinstance(a.elts[0], ast.Constant) and isinstance(a.elts[0].value, int):
                 return [("nonzero", norm(expr))]
         return [("other", norm(expr))]
+    if isinstance(expr, ast.Call) and call_name(expr) == "map" and len(expr.args) == 2 and norm(expr.args[0]) in ("int", "np.int64", "operator.index"):
+        return segments(expr.args[1], index_name, depth + 1)  # an element-wise conversion keeps which orders are addressed
     if isinstance(expr, ast.Call) and call_name(expr) == "tuple" and len(expr.args) == 1:
         inner = expr.args[0]
         if isinstance(inner, ast.Name):
